@@ -676,6 +676,116 @@ def _rhs_parts(fn):
     return parts
 
 
+class _Components(ast.NodeTransformer):
+    """component view of small ODE systems: `a, b, c = u`, `x1 = u[0]`, `u[1]`, `rhs[0]` become the names u_0, u_1, .., rhs_0, .."""
+
+    def __init__(self, fn, uname):
+        self.uname = uname
+        self.env = {}
+        bad = set()
+        for s in ast.walk(fn):
+            if isinstance(s, ast.Assign) and len(s.targets) == 1:
+                t, v = s.targets[0], s.value
+                if isinstance(t, ast.Tuple) and isinstance(v, ast.Name) and v.id == uname and all(isinstance(e, ast.Name) for e in t.elts):
+                    for k, e in enumerate(t.elts):
+                        if self.env.setdefault(e.id, k) != k:
+                            bad.add(e.id)
+                elif isinstance(t, ast.Name) and isinstance(v, ast.Subscript) and isinstance(v.value, ast.Name) and v.value.id == uname and isinstance(v.slice, ast.Constant) and isinstance(v.slice.value, int):
+                    if self.env.setdefault(t.id, v.slice.value) != v.slice.value:
+                        bad.add(t.id)
+                elif isinstance(t, ast.Name) and t.id in self.env:
+                    bad.add(t.id)
+        for b in bad:
+            self.env.pop(b, None)
+
+    def visit_Name(self, n):
+        if n.id in self.env:
+            return ast.copy_location(ast.Name(id=f'u_{self.env[n.id]}', ctx=ast.Load()), n)
+        return n
+
+    def visit_Subscript(self, n):
+        if isinstance(n.value, ast.Name) and n.value.id in (self.uname, 'rhs') and isinstance(n.slice, ast.Constant) and isinstance(n.slice.value, int):
+            base = 'u' if n.value.id == self.uname else 'rhs'
+            return ast.copy_location(ast.Name(id=f'{base}_{n.slice.value}', ctx=ast.Load()), n)
+        self.generic_visit(n)
+        return n
+
+
+def _vec_sym(n, uname, local, k, depth=0):
+    """vector-valued expression -> list of k sympy expressions (u, rhs are the vectors u_i, rhs_i); scalars scale"""
+    import sympy as sp
+    if depth > 20:
+        raise _Unk('cyclic')
+    if isinstance(n, ast.Name):
+        if n.id == uname:
+            return [sp.Symbol(f'u_{j}') for j in range(k)]
+        if n.id == 'rhs':
+            return [sp.Symbol(f'rhs_{j}') for j in range(k)]
+        if n.id in local:
+            return _vec_sym(local[n.id], uname, {a: b for a, b in local.items() if a != n.id}, k, depth + 1)
+        raise _Unk(n.id)
+    if isinstance(n, ast.Call) and ast.unparse(n.func).split('.')[-1] in ('array', 'asarray') and n.args and isinstance(n.args[0], (ast.List, ast.Tuple)):
+        n = n.args[0]
+    if isinstance(n, (ast.List, ast.Tuple)):
+        if len(n.elts) != k:
+            raise _Unk('vector length')
+        return [_newton_sym(e, '__no_iterate__', local) for e in n.elts]
+    if isinstance(n, ast.UnaryOp) and isinstance(n.op, ast.USub):
+        return [-x for x in _vec_sym(n.operand, uname, local, k, depth + 1)]
+    if isinstance(n, ast.BinOp):
+        if isinstance(n.op, (ast.Add, ast.Sub)):
+            a, b = _vec_sym(n.left, uname, local, k, depth + 1), _vec_sym(n.right, uname, local, k, depth + 1)
+            return [x + y if isinstance(n.op, ast.Add) else x - y for x, y in zip(a, b)]
+        if isinstance(n.op, ast.Mult):
+            for sc, ve in ((n.left, n.right), (n.right, n.left)):
+                try:
+                    v = _vec_sym(ve, uname, local, k, depth + 1)
+                except _Unk:
+                    continue
+                c = _newton_sym(sc, '__no_iterate__', local)
+                return [c * x for x in v]
+        if isinstance(n.op, ast.Div):
+            v = _vec_sym(n.left, uname, local, k, depth + 1)
+            c = _newton_sym(n.right, '__no_iterate__', local)
+            return [x / c for x in v]
+    raise _Unk(ast.unparse(n)[:40])
+
+
+def _vector_newton(fn, gs_value, uname, efn):
+    """decide g = u - factor*F(u) - rhs component by component for a small ODE system; -> (ok, detail) or raises _Unk"""
+    import sympy as sp
+    lens = [len(c.elts) for c in ast.walk(gs_value) if isinstance(c, (ast.List, ast.Tuple))]
+    for s in ast.walk(fn):
+        if isinstance(s, ast.Assign) and isinstance(s.value, ast.Call) and ast.unparse(s.value.func).split('.')[-1] == 'array' and s.value.args and isinstance(s.value.args[0], ast.List):
+            lens.append(len(s.value.args[0].elts))
+    if not lens:
+        raise _Unk('no vector literal')
+    k = lens[0]
+    tr = _Components(fn, uname)
+    local = {a: tr.visit(ast.parse(ast.unparse(b), mode='eval').body) for a, b in _single_locals(fn, ('g', 'dg', uname)).items() if a not in tr.env}
+    G = _vec_sym(tr.visit(ast.parse(ast.unparse(gs_value), mode='eval').body), uname, local, k)
+    euname = efn.args.args[1].arg
+    etr = _Components(efn, euname)
+    elocal = {a: etr.visit(ast.parse(ast.unparse(b), mode='eval').body) for a, b in _single_locals(efn, (euname,)).items() if a not in etr.env}
+    comps, whole = {}, None
+    for s in ast.walk(efn):
+        if isinstance(s, ast.Assign) and len(s.targets) == 1 and isinstance(s.targets[0], ast.Subscript) and ast.unparse(s.targets[0].value) == 'f':
+            sl = s.targets[0].slice
+            if isinstance(sl, ast.Constant) and isinstance(sl.value, int):
+                comps[sl.value] = s.value
+            elif ast.unparse(sl) == ':':
+                whole = s.value
+    if whole is not None:
+        F = _vec_sym(etr.visit(ast.parse(ast.unparse(whole), mode='eval').body), euname, elocal, k)
+    elif sorted(comps) == list(range(k)):
+        F = [_newton_sym(etr.visit(ast.parse(ast.unparse(comps[j]), mode='eval').body), '__no_iterate__', elocal) for j in range(k)]
+    else:
+        raise _Unk('eval_f does not assign the components of f one by one')
+    fac = sp.Symbol(fn.args.args[2].arg)
+    ds = [sp.simplify(sp.expand(G[j] - (sp.Symbol(f'u_{j}') - fac * F[j] - sp.Symbol(f'rhs_{j}')))) for j in range(k)]
+    return all(d == 0 for d in ds), {f'component {j}': str(d)[:90] for j, d in enumerate(ds) if d != 0}, k
+
+
 @rule('C12', 'C12.R11', 'Newton solves the equation of eval_f: the residual `g` of a Newton loop in solve_system* is u - factor*F(u) - rhs with F the part of the right-hand side that eval_f of the SAME class (through the MRO) assigns to the matching component (impl / comp1 / comp2 / the whole f) - compared symbolically, element-wise view, operators as linear atoms; a coefficient changed in g AND dg alike (invisible to R10) converges to the solution of another equation than the one the sweeper integrates', floor=10)
 def r11(ctx, R):
     import sympy as sp
@@ -710,7 +820,15 @@ def r11(ctx, R):
                 try:
                     G = _newton_sym(tr.visit(ast.parse(ast.unparse(gs[0].value), mode='eval').body), uname, local)
                 except (_Unk, RecursionError) as e:
-                    R.note(c, w, f'not decided: residual outside the vocabulary ({str(e)[:50]})')
+                    # small ODE systems write the residual component by component
+                    try:
+                        okv, det, k = _vector_newton(fn, gs[0].value, uname, ef[1])
+                    except (_Unk, RecursionError) as e2:
+                        R.note(c, w, f'not decided: residual outside the vocabulary ({str(e)[:40]}; component view: {str(e2)[:40]})')
+                        continue
+                    R.fn(w)
+                    n_dec += 1
+                    R.check(okv, c, w, f'g_i = u_i - factor*F_i(u) - rhs_i for the {k} components eval_f assigns', det if not okv else 'equal')
                     continue
                 F0 = sp.Symbol('__F__')
                 if G.has(F0):
